@@ -43,3 +43,10 @@ Proof. exact minimax_perm. Qed.
 Print Assumptions C06_search_contract.
 Print Assumptions C06_root_exact.
 Print Assumptions C06_switches_irrelevant.
+
+(* tie to the source: the game-tree model ends a line exactly where the engine does - a child is a draw leaf
+   only by repetition or the fifty-move clock, depth 0 hands over to quiescence/evaluation (gen/Sites_gen.v is
+   regenerated on every run by tools/sites.py) *)
+From FG.gen Require Import Sites_gen.
+Theorem C06_sites_recognised : forallb (fun b => b) sites_C06 = true.
+Proof. vm_compute. reflexivity. Qed.
